@@ -2,6 +2,7 @@ import Qv.Drv.C14
 import Qv.Drv.C15
 import Qv.Drv.C11
 import Qv.Drv.C03
+import Qv.Drv.C05
 /-! Line protocol: `<op> <json>` per line in, one JSON document per line out. -/
 open Lean
 
@@ -10,7 +11,8 @@ def handlers : List (String × (Json → Except String Json)) := [
   ("C14.serial", Qv.Drv.C14.serial),
   ("C15.history", Qv.Drv.C15.history),
   ("C11.prop", Qv.Drv.C11.prop),
-  ("C03.overclaims", Qv.Drv.C03.overclaimsJ)
+  ("C03.overclaims", Qv.Drv.C03.overclaimsJ),
+  ("C05.tree", Qv.Drv.C05.tree)
 ]
 
 def handle (line : String) : String :=
